@@ -213,12 +213,11 @@ class IrToWasmCompiler:
         self.add_definition(
             components.Memory(0, 10, None)
         )  # Start with 10 pages?
-        for memid, addr, data in self.initial_memory:
+        for data_id, (memid, addr, data) in enumerate(self.initial_memory):
             offset = [components.Instruction("i32.const", addr)]
+            memory_ref = components.Ref("memory", index=memid)
             self.add_definition(
-                components.Data(
-                    components.Ref("memory", index=memid), offset, data
-                )
+                components.Data(data_id, (memory_ref, offset), data)
             )
 
         if self.pointed_functions:
